@@ -358,6 +358,9 @@ def battery(ck, wanted=None):
         wit = [int(c_[k_], 16) for c_ in ck.extra.get('_cex', []) for k_ in ('a', 'b') if c_.get(k_) and int(c_[k_], 16)]
         import re as _re
         wit += [int(h_, 16) for h_ in _re.findall(r'limbs ([0-9a-f]{64})', out)[:4]]
+        # operands printed as VALUES by the battery ("Invert(2b..)", "Multiply(a,b)"): as limb vectors (value * 2^256 mod p)
+        for h_ in _re.findall(r'[A-Za-z0-9]+\(([0-9a-f]{1,64})[,)]', ' '.join(l for l in out.splitlines() if 'MISMATCH' in l))[:6]:
+            wit.append(int(h_, 16) % P * R % P)
         ck.dep_violation('field', 'field-api', 'field layer wrong on boundary/seeded operands: %s' % [l.strip() for l in out.splitlines() if 'MISMATCH' in l][:1], path, wit)
     else:
         ck.inconclusive.append('failed obligation did not reproduce on boundary/seeded operands: ' + out[-200:])
